@@ -81,14 +81,14 @@ Section Generic.
   Lemma b_start_nodel b f : nodel (snd (b_start b f)).
   Proof.
     unfold b_start; simpl. apply nodel_cons; [reflexivity|].
-    destruct f; [apply nodel_cons; [reflexivity|apply nodel_nil] | apply nodel_nil].
+    destruct f; repeat (apply nodel_cons; [reflexivity|]); apply nodel_nil.
   Qed.
 
   Lemma b_resume_nodel b i b' e : b_resume b i = Some (b', e) -> nodel e.
   Proof.
     unfold b_resume. destruct (_ && _); [|discriminate].
     destruct (status_of (stat b) i) as [[]|]; try discriminate.
-    intros H; injection H as _ <-. apply nodel_cons; [reflexivity|apply nodel_nil].
+    intros H; injection H as _ <-. repeat (apply nodel_cons; [reflexivity|]). apply nodel_nil.
   Qed.
 
   Lemma b_stop_events b i w :
@@ -573,11 +573,12 @@ Section ResumeSafe.
   Proof. unfold b_start, new_trial_id; simpl. rewrite app_length. simpl. lia. Qed.
 
   Lemma b_start_events b f : snd (b_start b f) =
-    EStart (new_trial_id b) f :: match f with Some j => [ECopy j (new_trial_id b)] | None => [] end.
+    EStart (new_trial_id b) f ::
+    match f with Some j => [ECopy j (new_trial_id b); ESchedule (new_trial_id b)] | None => [ESchedule (new_trial_id b)] end.
   Proof. reflexivity. Qed.
 
   Lemma b_resume_spec b i b' e : b_resume b i = Some (b', e) ->
-    e = [EResume i] /\ new_trial_id b' = new_trial_id b /\ (0 <= i < new_trial_id b)%Z.
+    e = [EResume i; ESchedule i] /\ new_trial_id b' = new_trial_id b /\ (0 <= i < new_trial_id b)%Z.
   Proof.
     unfold b_resume. destruct (Z.leb 0 i && Z.ltb i (new_trial_id b)) eqn:Eb; [|discriminate].
     destruct (status_of (stat b) i) as [[]|]; try discriminate.
@@ -624,7 +625,7 @@ Section ResumeSafe.
         { rewrite Hid. intros x [<-|Hx]; [unfold new_trial_id; lia | specialize (Hr x Hx); lia]. }
         destruct (IH _ _ _ _ _ _ _ _ _ _ HI' Hr' Hra' E1) as [A [B [C [Dd Ee]]]].
         split; [|split; [assumption|split; assumption]]. rewrite rs_from_app. split.
-        - rewrite Hne. destruct f as [j|]; simpl; [|tauto]. split; [exact I|]. split; [|exact I].
+        - rewrite Hne. destruct f as [j|]; simpl; [|tauto]. split; [exact I|]. split; [|tauto].
           destruct cc; [exact (HI3 j (Hf eq_refl)) | exact I].
         - rewrite dset_nodel; [exact A|]. pose proof (b_start_nodel b f) as Hn. now rewrite Eb in Hn. }
       destruct sg as [|j|i|].
@@ -648,7 +649,7 @@ Section ResumeSafe.
           assert (incl (i :: run) (active s1)) as Hra'.
           { intros x [<-|Hx]; [apply Hacs; now left | now apply Hra1]. }
           destruct (IH _ _ _ _ _ _ _ _ _ _ HI' Hr' Hra' E1) as [A [B [C [Dd Ee]]]].
-          split; [|auto]. simpl. split; [exact (HI3 i Hin) | exact A].
+          split; [|auto]. simpl. split; [exact (HI3 i Hin) | split; [exact I|exact A]].
         * injection E as <- <- <- <- <- <-. simpl. split; [tauto|]. split; [reflexivity|]. split; [|split; [exact Hr|exact Hra1]].
           split; [exact Hs1|]. split; [exact HI2|]. intros x Hx. apply HI3. now apply Hinc.
       + destruct Hs as [Hs1 [Hinc Hacs]]. injection E as <- <- <- <- <- <-. simpl. split; [exact I|]. split; [reflexivity|].
@@ -834,16 +835,16 @@ Section EndSection.
     - pose proof (b_start_events b None) as He. destruct (b_start b None) as [b1 e].
       specialize (IH s1 b1 (new_trial_id b :: run)).
       destruct (schedule sch s1 b1 (new_trial_id b :: run) gs) as [[[[[s2 b2] r2] ex] er] evs]. simpl in *.
-      subst e. constructor; [reflexivity|exact IH].
+      subst e. repeat (constructor; [reflexivity|]). exact IH.
     - pose proof (b_start_events b (Some j)) as He. destruct (b_start b (Some j)) as [b1 e].
       specialize (IH s1 b1 (new_trial_id b :: run)).
       destruct (schedule sch s1 b1 (new_trial_id b :: run) gs) as [[[[[s2 b2] r2] ex] er] evs]. simpl in *.
-      subst e. constructor; [reflexivity|]. constructor; [reflexivity|exact IH].
+      subst e. repeat (constructor; [reflexivity|]). exact IH.
     - destruct (b_resume b i) as [[b1 e]|] eqn:Eb.
       + destruct (b_resume_spec _ _ _ _ Eb) as [-> _].
         specialize (IH s1 b1 (i :: run)).
         destruct (schedule sch s1 b1 (i :: run) gs) as [[[[[s2 b2] r2] ex] er] evs]. simpl in *.
-        constructor; [reflexivity|exact IH].
+        repeat (constructor; [reflexivity|]). exact IH.
       + simpl. repeat constructor.
     - simpl. constructor.
   Qed.
@@ -1328,11 +1329,11 @@ Definition wits : list (iter_in (Q * Q * Z) Z) :=
     {| reports := [(0%Z, (1, 1, 0%Z)); (1%Z, (1, 2, 0%Z)); (0%Z, (2, 1, 1%Z)); (1%Z, (2, 2, 0%Z)); (1%Z, (3, 2, 0%Z))];
        completed := []; failed := []; sugg := [0%Z; 0%Z]; spec_choice := [] |} ].
 Definition wpre : list event :=
-  [EStart 0 None; EStart 1 None; EDecision 0 CONTINUE; EDecision 1 CONTINUE; EDecision 0 STOP; EClone 0 1;
+  [EStart 0 None; ESchedule 0; EStart 1 None; ESchedule 1; EDecision 0 CONTINUE; EDecision 1 CONTINUE; EDecision 0 STOP; EClone 0 1;
    EStop 0; EDelete 0 WStop; EDecision 1 CONTINUE; EDecision 1 STOP; EStop 1; EDelete 1 WStop;
    EStart 2 (Some 1%Z)].
 Definition wpost : list event :=
-  [EStart 3 None; EStopAll; EStop 2; EDelete 2 WStopAll; EStop 3; EDelete 3 WStopAll;
+  [ESchedule 2; EStart 3 None; ESchedule 3; EStopAll; EStop 2; EDelete 2 WStopAll; EStop 3; EDelete 3 WStopAll;
    EDelete 0 WStopAll; EDelete 1 WStopAll; EDelete 2 WStopAll; EDelete 3 WStopAll].
 
 Lemma pbt_clone_source_deleted_witness :
@@ -1636,3 +1637,154 @@ Proof.
     apply Forall_app in Haf as [_ Haf]. inversion Haf as [|? ? _ Haf']; subst.
     apply Forall_app in Haf' as [_ Haf']. inversion Haf'; subst. discriminate.
 Qed.
+
+(* ==== start_trial copies the source checkpoint BEFORE the job is scheduled ================== *)
+Definition is_sched (e : event) : bool := match e with ESchedule _ => true | _ => false end.
+Definition NS (l : list event) : Prop := Forall (fun e => is_sched e = false) l.
+
+Definition sched_ok (pre : list event) (t : Z) : Prop :=
+  (exists p, pre = p ++ [EStart t None]) \/
+  (exists p j, pre = p ++ [EStart t (Some j); ECopy j t]) \/
+  (exists p, pre = p ++ [EResume t]).
+
+Fixpoint sf_from (pre l : list event) : Prop :=
+  match l with
+  | [] => True
+  | e :: r => match e with ESchedule t => sched_ok pre t | _ => True end /\ sf_from (pre ++ [e]) r
+  end.
+
+Lemma sf_from_app l1 : forall p l2, sf_from p (l1 ++ l2) <-> sf_from p l1 /\ sf_from (p ++ l1) l2.
+Proof.
+  induction l1 as [|e l1 IH]; intros p l2; simpl.
+  - rewrite app_nil_r. tauto.
+  - rewrite IH. rewrite <- app_assoc. simpl. tauto.
+Qed.
+
+Lemma sf_from_NS l : forall p, NS l -> sf_from p l.
+Proof.
+  induction l as [|e l IH]; intros p H; simpl; [exact I|]. inversion H; subst. split; [|now apply IH].
+  destruct e; try exact I. discriminate.
+Qed.
+
+Lemma sf_from_spec l : forall p, sf_from p l ->
+  forall pre t post, l = pre ++ ESchedule t :: post -> sched_ok (p ++ pre) t.
+Proof.
+  induction l as [|e l IH]; intros p H pre t post E.
+  - destruct pre; discriminate.
+  - destruct pre as [|e' pre]; simpl in E; injection E as -> E.
+    + rewrite app_nil_r. exact (proj1 H).
+    + destruct H as [_ H]. specialize (IH _ H _ _ _ E). now rewrite <- app_assoc in IH.
+Qed.
+
+Section SchedOrder.
+  Context {S R G : Type}.
+  Variable sch : scheduler S R G.
+  Variable c : cfg.
+  Local Arguments b_start : simpl never.
+  Local Arguments b_resume : simpl never.
+  Local Arguments new_trial_id : simpl never.
+
+  Lemma NS_clone i cl : NS (clone_ev i cl).
+  Proof. destruct cl; repeat constructor. Qed.
+
+  Lemma process_results_NS compl : forall rs s b done, NS (snd (process_results sch c s b done compl rs)).
+  Proof.
+    induction rs as [|[i r] rs IH]; intros s b done; simpl; [constructor|].
+    destruct (mem_Z i done); [apply IH|].
+    destruct (on_result sch s i r) as [[s1 d] cl].
+    destruct d.
+    - specialize (IH s1 b done). destruct (process_results sch c s1 b done compl rs) as [[[s2 b2] d2] evs].
+      simpl in *. constructor; [reflexivity|]. apply Forall_app. split; [apply NS_clone|exact IH].
+    - specialize (IH s1 (set_status b i Paused) (i :: done)).
+      destruct (process_results sch c s1 (set_status b i Paused) (i :: done) compl rs) as [[[s2 b2] d2] evs].
+      simpl in *. constructor; [reflexivity|]. apply Forall_app. split; [apply NS_clone|].
+      constructor; [reflexivity|exact IH].
+    - destruct (mem_Z i compl).
+      + specialize (IH s1 b (i :: done)). destruct (process_results sch c s1 b (i :: done) compl rs) as [[[s2 b2] d2] evs].
+        simpl in *. constructor; [reflexivity|]. apply Forall_app. split; [apply NS_clone|exact IH].
+      + pose proof (b_stop_events c b i WStop) as Hs. destruct (b_stop c b i WStop) as [b' e].
+        specialize (IH s1 b' (i :: done)). destruct (process_results sch c s1 b' (i :: done) compl rs) as [[[s2 b2] d2] evs].
+        simpl in *. constructor; [reflexivity|]. apply Forall_app. split; [apply NS_clone|].
+        apply Forall_app. split; [|exact IH]. rewrite Hs. destruct (delete_checkpoints c); repeat constructor.
+  Qed.
+
+  Lemma schedule_sf : forall gs s b run p, sf_from p (snd (schedule sch s b run gs)).
+  Proof.
+    induction gs as [|g gs IH]; intros s b run p; [exact I|]. cbn [schedule].
+    destruct (suggest sch s (new_trial_id b) g) as [s1 sg]. destruct sg as [|j|i|].
+    - pose proof (b_start_events b None) as He. destruct (b_start b None) as [b1 e].
+      specialize (IH s1 b1 (new_trial_id b :: run)).
+      destruct (schedule sch s1 b1 (new_trial_id b :: run) gs) as [[[[[s2 b2] r2] ex] er] evs]. simpl in *.
+      subst e. simpl. split; [exact I|]. split; [left; now exists p|]. apply IH.
+    - pose proof (b_start_events b (Some j)) as He. destruct (b_start b (Some j)) as [b1 e].
+      specialize (IH s1 b1 (new_trial_id b :: run)).
+      destruct (schedule sch s1 b1 (new_trial_id b :: run) gs) as [[[[[s2 b2] r2] ex] er] evs]. simpl in *.
+      subst e. simpl. split; [exact I|]. split; [exact I|]. split; [|apply IH].
+      right; left. exists p, j. now rewrite <- app_assoc.
+    - destruct (b_resume b i) as [[b1 e]|] eqn:Eb.
+      + destruct (b_resume_spec _ _ _ _ Eb) as [-> _].
+        specialize (IH s1 b1 (i :: run)).
+        destruct (schedule sch s1 b1 (i :: run) gs) as [[[[[s2 b2] r2] ex] er] evs]. simpl in *.
+        split; [exact I|]. split; [right; right; now exists p|]. apply IH.
+      + simpl. tauto.
+    - simpl. exact I.
+  Qed.
+
+  Lemma loop_end_NS s b choice : NS (snd (loop_end sch c s b choice)).
+  Proof.
+    unfold loop_end.
+    assert (forall b l, NS (snd (delete_list b l WSpec))) as Hd
+      by (intros; apply delete_list_Forall; reflexivity).
+    assert (forall l b, NS (snd (removable_events b l))) as Hr.
+    { induction l as [|i l IH]; intros b0; simpl; [constructor|].
+      specialize (IH {| ids := ids b0; stat := stat b0; deleted := i :: deleted b0 |}).
+      destruct (removable_events _ l) as [b2 e2]. simpl in *. repeat (constructor; [reflexivity|]). exact IH. }
+    destruct (remove_callback c).
+    - destruct (removables sch s) as [s' l]. pose proof (Hr l b) as H1.
+      destruct (removable_events b l) as [b' e]. destruct (speculative c); [|exact H1].
+      specialize (Hd b' (filter (spec_ok sch s') choice)).
+      destruct (delete_list b' _ WSpec) as [b2 e2]. simpl in *. apply Forall_app. split; assumption.
+    - destruct (speculative c); [|constructor].
+      specialize (Hd b (filter (spec_ok sch s) choice)). destruct (delete_list b _ WSpec) as [b2 e2]. exact Hd.
+  Qed.
+
+  Lemma finish_NS (st : tstate S) : NS (finish c st).
+  Proof.
+    unfold finish. constructor; [reflexivity|].
+    eapply Forall_impl; [|apply stop_all_AF]. intros e He. destruct e; try discriminate; reflexivity.
+  Qed.
+
+  Lemma iteration_sf st it p : sf_from p (snd (fst (iteration sch c st it))).
+  Proof.
+    unfold iteration.
+    set (rs := filter _ (reports it)). set (compl := filter _ (completed it)). set (fl := filter _ (failed it)).
+    pose proof (process_results_NS compl rs (sst st) (mark_failed (mark_completed (be st) compl) fl) []) as H1.
+    destruct (process_results sch c (sst st) _ [] compl rs) as [[[s1 b1] done] ev1]. simpl in H1.
+    set (s1' := fold_left (on_error sch) _ s1).
+    destruct (exhausted st).
+    - pose proof (loop_end_NS s1' b1 (spec_choice it)) as H3.
+      destruct (loop_end sch c s1' b1 (spec_choice it)) as [[s3 b3] ev3]. simpl in *.
+      apply sf_from_NS. apply Forall_app. split; assumption.
+    - match goal with |- context [schedule sch s1' b1 ?r (sugg it)] =>
+        pose proof (schedule_sf (sugg it) s1' b1 r (p ++ ev1)) as H2;
+        destruct (schedule sch s1' b1 r (sugg it)) as [[[[[s2 b2] run2] ex] er] ev2] end.
+      simpl in H2. destruct er; simpl.
+      + apply sf_from_app. split; [now apply sf_from_NS|exact H2].
+      + pose proof (loop_end_NS s2 b2 (spec_choice it)) as H3.
+        destruct (loop_end sch c s2 b2 (spec_choice it)) as [[s3 b3] ev3]. simpl in *.
+        apply sf_from_app. split; [now apply sf_from_NS|]. apply sf_from_app. split; [exact H2|now apply sf_from_NS].
+  Qed.
+
+  Lemma run_sf : forall its st p, sf_from p (run sch c st its).
+  Proof.
+    induction its as [|it its IH]; intros st p; cbn [run]; [apply sf_from_NS, finish_NS|].
+    pose proof (iteration_sf st it p) as H1.
+    destruct (iteration sch c st it) as [[st' ev] er]. simpl in H1.
+    apply sf_from_app. split; [exact H1|].
+    destruct er; [apply sf_from_NS, finish_NS | apply IH].
+  Qed.
+
+  Theorem copy_before_schedule : forall st its pre t post,
+    run sch c st its = pre ++ ESchedule t :: post -> sched_ok pre t.
+  Proof. intros st its pre t post E. exact (sf_from_spec _ [] (run_sf its st []) pre t post E). Qed.
+End SchedOrder.
